@@ -60,6 +60,11 @@ pub enum Sel {
     /// builder L: a statement kept abstract in the following functions: (needle in its source text,
     /// Lean function declared by a `Raw` item, expressions it reads, variables it writes)
     AbstractStmt(&'static str, &'static str, &'static [&'static str], &'static [&'static str]),
+    /// builder N: like `ExternFn`, with the names of its `&mut` parameters (state passing: the Lean
+    /// function returns `ret × their new values`) and whether the Lean function is `Option`-valued
+    ExternFnX(&'static str, &'static str, &'static [(&'static str, &'static str)], &'static str, &'static [&'static str], bool),
+    /// builder N: a tuple struct with one field (`struct T(u8)`): structure with the field `_0`
+    Newtype(&'static str),
 }
 
 pub struct Unit {
@@ -337,6 +342,9 @@ fn translate_unit(repo: &Path, u: &Unit, reg: &mut Registry) -> Res<String> {
                 let tr = FnTr { reg, self_ty: Some(name.to_string()), ret: Ty::Unit, counter: 0, fn_prefix: String::new(), local_fns: HashMap::new(), extra_defs: vec![], muts: vec![], tparams: HashMap::new() };
                 let mut fields = vec![];
                 for f in &s.fields {
+                    if tr::cfg_disabled(&f.attrs) {
+                        continue;
+                    }
                     let fname = f.ident.as_ref().ok_or("tuple struct")?.to_string();
                     fields.push((fname, tr.ty(&f.ty)?));
                 }
@@ -539,6 +547,36 @@ fn translate_unit(repo: &Path, u: &Unit, reg: &mut Registry) -> Res<String> {
                 let rty: Type = syn::parse_str(ret).map_err(|e| format!("ExternFn {}: {}", key, e))?;
                 let r = tr.ty(&rty)?;
                 reg.fns.insert(key.to_string(), FnSig { lean: lean.to_string(), params: ps, ret: r, fallible: false, muts: vec![] });
+            }
+            Sel::ExternFnX(key, lean, params, ret, muts, fallible) => {
+                let tr = FnTr { reg, self_ty: None, ret: Ty::Unit, counter: 0, fn_prefix: String::new(), local_fns: HashMap::new(), extra_defs: vec![], muts: vec![], tparams: HashMap::new() };
+                let mut ps = vec![];
+                for (n, t) in params.iter() {
+                    let ty: Type = syn::parse_str(t).map_err(|e| format!("ExternFnX {}: {}", key, e))?;
+                    ps.push((n.to_string(), tr.ty(&ty)?));
+                }
+                let r = if ret.is_empty() {
+                    Ty::Unit
+                } else {
+                    let rty: Type = syn::parse_str(ret).map_err(|e| format!("ExternFnX {}: {}", key, e))?;
+                    tr.ty(&rty)?
+                };
+                reg.fns.insert(key.to_string(), FnSig { lean: lean.to_string(), params: ps, ret: r, fallible: *fallible, muts: muts.iter().map(|m| m.to_string()).collect() });
+            }
+            Sel::Newtype(name) => {
+                let it = find_in(&|it| matches!(it, Item::Struct(s) if s.ident == name)).ok_or(format!("struct {} not found", name))?;
+                let s = match it {
+                    Item::Struct(s) => s,
+                    _ => unreachable!(),
+                };
+                let tr = FnTr { reg, self_ty: Some(name.to_string()), ret: Ty::Unit, counter: 0, fn_prefix: String::new(), local_fns: HashMap::new(), extra_defs: vec![], muts: vec![], tparams: HashMap::new() };
+                let fty = match &s.fields {
+                    Fields::Unnamed(fu) if fu.unnamed.len() == 1 => tr.ty(&fu.unnamed[0].ty)?,
+                    _ => return Err(format!("{} is not a one-field tuple struct", name)),
+                };
+                writeln!(out, "/-- the newtype `{}` -/", name).unwrap();
+                writeln!(out, "structure {} where\n  _0 : {}\n  deriving DecidableEq, Repr\n", name, fty.lean()).unwrap();
+                reg.structs.insert(name.to_string(), vec![("0".to_string(), fty)]);
             }
             Sel::ConstAs(file_substr, rust_name, lean_name) => {
                 let idx = file_names.iter().position(|n| n.contains(file_substr)).ok_or(format!("no file matching {}", file_substr))?;
